@@ -10,6 +10,7 @@ CONSTANTS MaxEp = 2
           KF_NotFound = TRUE
           Unreliable = FALSE
           AllowExit = FALSE
+          MaxSockFail = 0
           KF_Overtake = TRUE
 PROPERTY Heals
 CHECK_DEADLOCK FALSE
